@@ -8,6 +8,7 @@ checker padeCheck (proved: coefficients of A*Q - P up to degree L+M are within 2
 differint of x^k for integer orders n >= 0 and n = -1 against the proved closed form; difference(s, n) bit-exactly against
 the exact model (proved equal to the n-th forward difference).
 """
+import math
 import json, random
 from fractions import Fraction
 import calc_ops as CO
@@ -157,7 +158,12 @@ def case_diff(r, st, quick):
     if t["opts"].get("relative") and api != "partial" and Fraction(t["x"]) == 0:
         site = "calculus.differentiation.diff[relative,x=0]"
     if t["opts"].get("method") == "quad":
-        site = "calculus.differentiation.diff[quad,n>=6]" if t.get("n", 0) >= 6 else "calculus.differentiation.diff[quad]"
+        # the Cauchy-integral method has 10 guard bits and loses log2(n!/r^n) of them (and more when max|f| on the circle is large):
+        # orders n >= 6, or smaller orders on a small circle, are the recorded finding F-C28-QUAD
+        n_ = int(t.get("n", 0))
+        rad_ = Fraction(t["opts"].get("radius", "1/4"))
+        lossy = n_ >= 6 or Fraction(math.factorial(n_)) / rad_ ** n_ > 2 ** 10
+        site = "calculus.differentiation.diff[quad,n>=6]" if lossy else "calculus.differentiation.diff[quad]"
     return {"task": t, "site": site, "lines": lines, "judge": judge, "nontrivial": True}
 
 
